@@ -218,6 +218,84 @@ def ob_union(run, mir, rp, fam):
              fam.as_replay("union:", only=["union-", "None-into", "default-"]))
 
 
+def ob_question_none(run, mir, rp, fam):
+    """The default operator demands a nullable left operand; the None literal is constrained as undefined."""
+    import ckern
+    from e2 import calls, result_kind
+    EXPR_RS = ckern.GEN + "expression.rs"
+    ob = run.ob("default-operator", "E2", "gen_expr Question arm: exactly one constraint, parent = the left operand and child = None at the "
+                "left operand's position (the left operand must admit None), in the caller's environment; both operands are then "
+                "generated in that environment and their errors abort", ["gen_expr"])
+    fn = e2.find1(mir, file=EXPR_RS, name="gen_expr")
+    ex = Exec(mir, max_paths=5000)
+    st = State()
+    left, lpos = ckern.mk_ast("left", e2.opq("left.node", "Node"))
+    right, _ = ckern.mk_ast("right", e2.opq("right.node", "Node"))
+    lbox, rbox = Ref(ex.new_cell(st, left)), Ref(ex.new_cell(st, right))
+    node = ckern.mk_node("Question", {"left": lbox, "right": rbox})
+    ast, _ = ckern.mk_ast("ast", node)
+    env, ctx, constr = ckern.refs(ex, st, "env", "ctx", "constr")
+    ends = e2.run_kernel(run, ex, fn, [Ref(ex.new_cell(st, ast)), env, ctx, constr], st)
+    claims = []
+    for p in ends:
+        if p.kind != "return":
+            raise Unsupported(f"unexpected path end {p}")
+        s = p.state
+        c = conj(p.cond)
+        adds = calls(p, "ConstrBuilder::add")
+        gens = calls(p, "generate")
+        spec = [z3.BoolVal(len(adds) == 1)]
+        if len(adds) == 1:
+            a = adds[0]
+            frm = [ev for ev in p.events if ev["name"].endswith("From::from") and z3.eq(ev["argvals"][0], ex.to_val(s, lbox))]
+            non = [ev for ev in calls(p, "Expected::none")]
+            ok = z3.BoolVal(False)
+            if frm and non:
+                ok = z3.And(a["argvals"][2] == ex.to_val(s, frm[0]["ret"]), a["argvals"][3] == ex.to_val(s, non[0]["ret"]),
+                            non[0]["argvals"][0] == ex.to_val(s, lpos), a["argvals"][4] == ex.to_val(s, env))
+            spec.append(ok)
+        gl = [g for g in gens if z3.eq(g["argvals"][0], ex.to_val(s, lbox))]
+        gr = [g for g in gens if z3.eq(g["argvals"][0], ex.to_val(s, rbox))]
+        spec.append(z3.BoolVal(bool(gl)))
+        kind = result_kind(p)
+        for g in gl + gr:
+            spec.append(g["argvals"][1] == ex.to_val(s, env))
+            spec.append(z3.Implies(ex.discr(s, g["ret"], "Result") == 1, z3.BoolVal(kind == "Err")))
+        if kind == "Ok":
+            spec.append(z3.BoolVal(bool(gl) and bool(gr)))
+        claims.append(z3.Implies(c, conj(spec)))
+    e2.prove(run, ob, ex, [], conj(claims), {}, fam.as_replay("default-operator:", only=["default-", "nullable-operand"]))
+
+    ob2 = run.ob("none-literal", "E2", "match_id on the identifier None: the literal is constrained as undefined (type None) in the caller's "
+                 "environment and nothing else is added", ["match_id"])
+    fn = e2.find1(mir, file=EXPR_RS, name="match_id")
+    ex = Exec(mir, max_paths=5000)
+    st = State()
+    node = ckern.mk_node("Id", {"lit": StrC("None")})
+    ast, _ = ckern.mk_ast("ast", node)
+    aref = Ref(ex.new_cell(st, ast))
+    envr, _vals = ckern.sym_env(ex, st)
+    ctx, constr = ckern.refs(ex, st, "ctx", "constr")
+    ty = Ref(ex.new_cell(st, e2.opq("ty", "Option<Box<AST>>")))
+    ends = e2.run_kernel(run, ex, fn, [aref, ty, z3.Bool("mutable"), envr, ctx, constr], st)
+    claims = []
+    for p in ends:
+        if p.kind != "return":
+            raise Unsupported(f"unexpected path end {p}")
+        s = p.state
+        und = calls(p, "Constraint::undefined")
+        addc = calls(p, "ConstrBuilder::add_constr")
+        other = calls(p, "ConstrBuilder::add") + calls(p, "id_from_var") + calls(p, "gen_primitive")
+        ok = z3.BoolVal(False)
+        if len(und) == 1 and len(addc) == 1 and not other and result_kind(p) == "Ok":
+            frm = [ev for ev in p.events if ev["name"].endswith("From::from") and z3.eq(ev["argvals"][0], ex.to_val(s, aref))]
+            if frm:
+                ok = z3.And(und[0]["argvals"][1] == ex.to_val(s, frm[0]["ret"]), addc[0]["argvals"][1] == ex.to_val(s, und[0]["ret"]),
+                            addc[0]["argvals"][2] == ex.to_val(s, envr))
+        claims.append(z3.Implies(conj(p.cond), ok))
+    e2.prove(run, ob2, ex, [], conj(claims), {}, fam.as_replay("none-literal:", only=["None-"]))
+
+
 def run(run):
     mir = e2.load_mir(run)
     rp = common.Replay()
@@ -231,7 +309,7 @@ def run(run):
     run.bounds = {"paths": "all acyclic paths of each kernel", "inline_depth": 4,
                   "outside": "that every consuming position reaches this comparison; HashSet internals; "
                              "constructor field-assignment analysis"}
-    for f in (ob_true_name_rule, ob_accessors, ob_union):
+    for f in (ob_true_name_rule, ob_accessors, ob_union, ob_question_none):
         try:
             f(run, mir, rp, fam)
         except Unsupported as e:
